@@ -5,7 +5,7 @@
    theorem about problems made of built-in specifications, with no assumption left about them. *)
 From Coq Require Import ZArith QArith Bool List Lia Lqa.
 From DC Require Import Model.Base Model.Loc Model.Bio Model.Pattern Model.MSpace Model.Specs Model.Solver
-                       Proofs.MSpaceDefs Proofs.SpecsDefs Proofs.SpecsLocalA Proofs.SpecsLocalB Proofs.SpecsLocalC Proofs.Hairpins Proofs.Uniquify
+                       Proofs.MSpaceDefs Proofs.SpecsDefs Proofs.SpecsLocalA Proofs.SpecsLocalB Proofs.SpecsLocalC Proofs.Hairpins Proofs.Uniquify Proofs.HarmonizePass
                        Proofs.SolverA Proofs.SolverB Proofs.SolverC Proofs.SolverD Proofs.SpecsEval.
 Import ListNotations.
 Open Scope Z_scope.
@@ -40,7 +40,7 @@ Definition b08_side (sp : spec) : Prop :=
   | _ => True
   end.
 Definition b08_class (sp : spec) : bool :=
-  match sp with SUniquify _ _ _ _ (Some _) | SHarmonizeRCA _ _ _ _ _ => false | _ => true end.
+  match sp with SUniquify _ _ _ _ (Some _) => false | _ => true end.
 
 (* the localized copy of a well-formed built-in specification is again evaluable on sequences of the
    same length (needed because the solver evaluates the localized copy) *)
@@ -89,6 +89,7 @@ Proof.
   - apply enforce_choice_laws.
   - apply rare_codons_laws; assumption.
   - apply maximize_cai_laws; assumption.
+  - apply harmonize_pass; assumption.
   - match goal with d : option kdata |- _ => destruct d; [discriminate|] end. apply uniquify_pass; assumption.
   - apply hairpins_pass; assumption.
   - apply terminal_gc_laws; assumption.
